@@ -125,6 +125,7 @@ func (db *DB) openMemTable(fid, flags int) (*memTable, error) {
 		if err := mt.wal.Delete(); err != nil {
 			db.opt.Errorf("while deleting file: %s, err: %v", filepath, err)
 		}
+		vevent(6, filepath, 0, 0) // verif: delete
 	}
 
 	if lerr == z.NewFile {
@@ -153,6 +154,7 @@ func (db *DB) mtFilePath(fid int) string {
 }
 
 func (mt *memTable) SyncWAL() error {
+	defer vevent(4, mt.wal.path, 0, 0) // verif: sync
 	return mt.wal.Sync()
 }
 
@@ -272,6 +274,7 @@ func (lf *logFile) Truncate(end int64) error {
 	}
 	y.AssertTrue(!lf.opt.ReadOnly)
 	lf.size.Store(uint32(end))
+	defer vevent(5, lf.path, end, 0) // verif: truncate
 	return lf.MmapFile.Truncate(end)
 }
 
@@ -328,6 +331,7 @@ func (lf *logFile) writeEntry(buf *bytes.Buffer, e *Entry, opt Options) error {
 		return err
 	}
 	y.AssertTrue(plen == copy(lf.Data[lf.writeAt:], buf.Bytes()))
+	vevent(2, lf.path, int64(lf.writeAt), int64(plen)) // verif: write
 	lf.writeAt += uint32(plen)
 
 	lf.zeroNextEntry()
@@ -410,6 +414,7 @@ func (lf *logFile) doneWriting(offset uint32) error {
 		if err := lf.Sync(); err != nil {
 			return y.Wrapf(err, "Unable to sync value log: %q", lf.path)
 		}
+		vevent(4, lf.path, 0, 0) // verif: sync
 	}
 
 	// Before we were acquiring a lock here on lf.lock, because we were invalidating the file
@@ -532,6 +537,7 @@ loop:
 // Zero out the next entry to deal with any crashes.
 func (lf *logFile) zeroNextEntry() {
 	z.ZeroOut(lf.Data, int(lf.writeAt), int(lf.writeAt+maxHeaderSize))
+	vevent(3, lf.path, int64(lf.writeAt), maxHeaderSize) // verif: zero
 }
 
 func (lf *logFile) open(path string, flags int, fsize int64) error {
@@ -539,8 +545,10 @@ func (lf *logFile) open(path string, flags int, fsize int64) error {
 	lf.MmapFile = mf
 
 	if ferr == z.NewFile {
+		vevent(1, path, fsize, 0) // verif: create
 		if err := lf.bootstrap(); err != nil {
 			os.Remove(path)
+			vevent(7, path, 0, 0) // verif: remove
 			return err
 		}
 		lf.size.Store(vlogHeaderSize)
@@ -608,6 +616,7 @@ func (lf *logFile) bootstrap() error {
 
 	// Copy over to the logFile.
 	y.AssertTrue(vlogHeaderSize == copy(lf.Data[0:], buf))
+	vevent(2, lf.path, 0, vlogHeaderSize) // verif: write
 
 	// Zero out the next entry.
 	lf.zeroNextEntry()
